@@ -35,7 +35,8 @@ from checks import concshared as cs
 PID = "C07"
 OBLIGATION_FILES = ["Conc/SkelObligationsC07.v"]
 C07_OBLIGATIONS = ["no_blocking_send_to_client", "wait_graph_ranked", "no_peer_close_in_shared_server",
-                   "yield_retry_keeps_invocation"]
+                   "yield_retry_keeps_invocation", "yield_stops_timer_before_retry",
+                   "cancel_waits_only_if_interrupt_sent"]
 
 KNOWN_SIG = "meta-result-retry-blocks-metapeer"
 WHAT = {
@@ -166,7 +167,22 @@ def _yield_resume(rep, *summaries):
                     row.get("resume_after_us"), row.get("predicted"), row.get("predicted_us"), want[1], want[0]))
     if rep.get("ok") and rows and not table:
         mismatch.append("Conc/SkelReport.v printed no YIELD_RESUME_TABLE")
-    return dict(rows=rows, mismatch=mismatch, compared=compared, table_size=len(table))
+    # scenario cancel-to-stalled-callee against Conc/CancelModel.v
+    ctable = rep.get("cancel_table") or {}
+    crows = []
+    for sm in summaries:
+        for row in (sm or {}).get("cancel_stalled") or []:
+            crows.append(row)
+            want = ctable.get((row.get("mode"), not row.get("full")))
+            if want is None:
+                continue
+            compared += 1
+            got = (bool(row.get("predicted_interrupt_queued")), bool(row.get("predicted_answered_at_once")))
+            if got != want:
+                mismatch.append("cancel mode=%s room=%s: harness %s, Coq %s" % (row.get("mode"), not row.get("full"), got, want))
+    if rep.get("ok") and crows and not ctable:
+        mismatch.append("Conc/SkelReport.v printed no CANCEL_TABLE")
+    return dict(rows=rows, mismatch=mismatch, compared=compared, table_size=len(table), cancel_rows=crows)
 
 
 def _counts(sm):
@@ -200,6 +216,11 @@ def _evidence(tier, t, v, r, rep, summary, targeted, assumptions, broken, yr=Non
         targeted_search=_counts(targeted),
         known_findings=v.known,
         yield_keep_reading=rep.get("yield_keep"),
+        dealer_readings=rep.get("readings"),
+        cancel_stalled=dict(scenarios=len((yr or {}).get("cancel_rows", [])),
+                            as_predicted=len([x for x in (yr or {}).get("cancel_rows", [])
+                                              if x.get("predicted_interrupt_queued") == x.get("observed_interrupt_queued")
+                                              and x.get("predicted_answered_at_once") == x.get("observed_answered_at_once")])),
         yield_resume=dict(
             scenarios=len((yr or {}).get("rows", [])),
             predictions_compared_with_coq=(yr or {}).get("compared"),
@@ -240,6 +261,9 @@ def _replay(path):
         bad = (not rep.get("ok")) or any(not rep["obligations"].get(o, False) for o in C07_OBLIGATIONS)
         print("VERDICT: %s" % ("still broken" if bad else "obligations hold now"))
         return 1 if bad else 0
+    if (obj.get("history") or {}).get("cancel_stalled"):
+        print("-- model (Conc/CancelModel.v): mode skip answers the caller at once; killnowait offers an INTERRUPT and answers "
+              "at once; kill waits for the callee only if the INTERRUPT was queued, a full queue degrades it to skip")
     if (obj.get("history") or {}).get("yield_resume"):
         print("-- model (Conc/YieldRetry.v): a YIELD that found the caller's queue full is delivered at the first retry "
               "instant (1, 3, 7, ... ms) at which the caller has room, exactly once; otherwise the call is cancelled "
